@@ -39,38 +39,41 @@ def run(ctx):
             for rk in range(0, r + 1):
                 for pat in (['simple'] if ctx.quick() and (m + n) % 2 else ['simple', 'repeated']):
                     sv = [Fraction(3 + (r - i), 2) if pat == 'simple' else Fraction(2) for i in range(rk)] + [Fraction(0)] * (r - rk)
-                    A, U0, V0 = spectral_problem(rng, m, n, sv); An = qx.to_np(A)
-                    tags = []
-                    if pat == 'repeated' and rk >= 2: tags.append('repeated-singular-values')
-                    if m - rk >= 2 or n - rk >= 2: tags.append('null-space>=2')
-                    suf = (':' + '+'.join(tags)) if tags else ''
-                    inp = {'shape': [m, n], 'rank': rk, 'pattern': pat, 'A': [[[str(c) for c in a.t()] for a in row] for row in A]}
-                    try:
-                        rr = utils.rank(An); rh = utils.rank(utils.quat_hermitian(An))
-                        Nr = utils.quat_null_space(An, 'right'); Nl = utils.quat_null_left(An)
-                        _, s, _ = qsvd.classical_qsvd_full(An)
-                    except Exception as e: viol(f'C11:raises{suf}', f'rank / null space raised {e!r}', inp); continue
-                    if rr != rk: viol(f'C11:rank{suf}', f'rank {rr} != true rank {rk}', inp, rr, rk)
-                    if rh != rr: viol(f'C11:rank:herm{suf}', 'rank(A^H) != rank(A)', inp, rh, rr)
-                    rreal = int(np.linalg.matrix_rank(utils.real_expand(An)))
-                    if rreal != 4 * rr: viol(f'C11:rank:quarter{suf}', 'rank is not a quarter of the rank of the real representation', inp, (rr, rreal))
-                    # invariance under invertible factors
-                    P = qx.to_np(qx.rand_unitary(rng, m, 1)); G = qx.rand_int(rng, n, n, -2, 2)
-                    for i in range(n): G[i][i] = G[i][i] + Q(7)
-                    if utils.rank(utils.quat_matmat(utils.quat_matmat(P, An), qx.to_np(G))) != rr: viol(f'C11:rank:invariance{suf}', 'rank changes under multiplication by invertible matrices', inp)
-                    if Nr.shape != (n, n - rk) or Nl.shape != (m, m - rk): viol(f'C11:null:shape{suf}', 'null-space bases have the wrong number of columns', inp, (Nr.shape, Nl.shape), ((n, n - rk), (m, m - rk)))
-                    else:
-                        sc = max(1.0, fro(An))
-                        if n - rk and fro(utils.quat_matmat(An, Nr)) > 1e-9 * sc: viol(f'C11:null:annihilate{suf}', 'A N != 0 for the right null-space basis', inp, fro(utils.quat_matmat(An, Nr)))
-                        if m - rk and fro(utils.quat_matmat(utils.quat_hermitian(Nl), An)) > 1e-9 * sc: viol(f'C11:null:annihilate-left{suf}', 'N^H A != 0 for the left null-space basis', inp)
-                        for nm, N, d in (('right', Nr, n - rk), ('left', Nl, m - rk)):
-                            if d and utils.rank(N) != d: viol(f'C11:null:independent:{nm}{suf}', f'{nm} null-space basis columns are not linearly independent (rank {utils.rank(N)} of {d})', inp)
-                    ctx.count(('rank', m, n, rk, pat), True, sample={'shape': [m, n], 'rank': rk, 'pattern': pat} if (m, n, rk) == (3, 4, 2) else None)
-                    smax = float(max(s)) if len(s) else 0.0
-                    tol = np.finfo(float).eps * max(m, n) * smax
-                    if all(abs(float(v) - tol) > 0.5 * tol for v in s) and all(abs(float(v) - 1e-10 * smax) > 0.5e-10 * smax or smax == 0 for v in s):
-                        rterms.append(f'({m}%nat, {n}%nat, [' + '; '.join(Ql(Fraction(float(v))) for v in s) + f'], {rr}%nat, {Ql(Fraction(1, 10 ** 10))}, {n - Nr.shape[1]}%nat)')
-                    else: ctx.cov['discarded'] += 1
+                    A, U0, V0 = spectral_problem(rng, m, n, sv)
+                    for sname, scl in (('1', 1.0), ('2^27', 2.0 ** 27), ('2^-40', 2.0 ** -40)) if (m + n + rk) % 3 == 0 or not ctx.quick() else (('1', 1.0),):
+                      An = qx.to_np(A) * scl
+                      tags = []
+                      if pat == 'repeated' and rk >= 2: tags.append('repeated-singular-values')
+                      if m - rk >= 2 or n - rk >= 2: tags.append('null-space>=2')
+                      if scl != 1.0: tags.append('scaled')
+                      suf = (':' + '+'.join(tags)) if tags else ''
+                      inp = {'shape': [m, n], 'rank': rk, 'pattern': pat, 'scale': sname, 'A': [[[str(c) for c in a.t()] for a in row] for row in A]}
+                      try:
+                          rr = utils.rank(An); rh = utils.rank(utils.quat_hermitian(An))
+                          Nr = utils.quat_null_space(An, 'right'); Nl = utils.quat_null_left(An)
+                          _, s, _ = qsvd.classical_qsvd_full(An)
+                      except Exception as e: viol(f'C11:raises{suf}', f'rank / null space raised {e!r}', inp); continue
+                      if rr != rk: viol(f'C11:rank{suf}', f'rank {rr} != true rank {rk}', inp, rr, rk)
+                      if rh != rr: viol(f'C11:rank:herm{suf}', 'rank(A^H) != rank(A)', inp, rh, rr)
+                      rreal = int(np.linalg.matrix_rank(utils.real_expand(An)))
+                      if rreal != 4 * rr: viol(f'C11:rank:quarter{suf}', 'rank is not a quarter of the rank of the real representation', inp, (rr, rreal))
+                      # invariance under invertible factors
+                      P = qx.to_np(qx.rand_unitary(rng, m, 1)); G = qx.rand_int(rng, n, n, -2, 2)
+                      for i in range(n): G[i][i] = G[i][i] + Q(7)
+                      if utils.rank(utils.quat_matmat(utils.quat_matmat(P, An), qx.to_np(G))) != rr: viol(f'C11:rank:invariance{suf}', 'rank changes under multiplication by invertible matrices', inp)
+                      if Nr.shape != (n, n - rk) or Nl.shape != (m, m - rk): viol(f'C11:null:shape{suf}', 'null-space bases have the wrong number of columns', inp, (Nr.shape, Nl.shape), ((n, n - rk), (m, m - rk)))
+                      else:
+                          sc = fro(An)
+                          if n - rk and fro(utils.quat_matmat(An, Nr)) > 1e-9 * sc: viol(f'C11:null:annihilate{suf}', 'A N != 0 for the right null-space basis', inp, fro(utils.quat_matmat(An, Nr)))
+                          if m - rk and fro(utils.quat_matmat(utils.quat_hermitian(Nl), An)) > 1e-9 * sc: viol(f'C11:null:annihilate-left{suf}', 'N^H A != 0 for the left null-space basis', inp)
+                          for nm, N, d in (('right', Nr, n - rk), ('left', Nl, m - rk)):
+                              if d and utils.rank(N) != d: viol(f'C11:null:independent:{nm}{suf}', f'{nm} null-space basis columns are not linearly independent (rank {utils.rank(N)} of {d})', inp)
+                      ctx.count(('rank', m, n, rk, pat, sname), True, sample={'shape': [m, n], 'rank': rk, 'pattern': pat} if (m, n, rk, sname) == (3, 4, 2, '1') else None)
+                      smax = float(max(s)) if len(s) else 0.0
+                      tol = np.finfo(float).eps * max(m, n) * smax
+                      if all(abs(float(v) - tol) > 0.5 * tol for v in s) and all(abs(float(v) - 1e-10 * smax) > 0.5e-10 * smax or smax == 0 for v in s):
+                          rterms.append(f'({m}%nat, {n}%nat, [' + '; '.join(Ql(Fraction(float(v))) for v in s) + f'], {rr}%nat, {Ql(Fraction(1, 10 ** 10))}, {n - Nr.shape[1]}%nat)')
+                      else: ctx.cov['discarded'] += 1
     # determinants
     for n in range(1, (4 if ctx.quick() else 6)):
         for rep in range(3):
@@ -100,7 +103,7 @@ def run(ctx):
         ctx.cov['traces_validated_against_impl'] += len(res)
         bad = [i for i, x in enumerate(res) if not x]
         if bad: ctx.broken.append(f'rank / null-rank model and implementation disagree on {len(bad)} of {len(res)} case(s), first: {rterms[bad[0]][:300]}')
-    ctx.cov['rule'] = (f'all shapes 1..{top} x 1..{top}, every rank 0..min(m,n), simple and repeated spectra (exact rational constructions): rank, rank of A^H, quarter of the real rank, invariance under unitary / invertible factors, '
+    ctx.cov['rule'] = (f'all shapes 1..{top} x 1..{top}, every rank 0..min(m,n), simple and repeated spectra (exact rational constructions), also scaled by 2^27 and 2^-40: rank, rank of A^H, quarter of the real rank, invariance under unitary / invertible factors, '
                        'null-space shapes, annihilation and independence; Dieudonne (product, zero iff singular, multiplicative) and Moore determinants; counting model on the recorded singular values. Discarded = singular value within 50% of a threshold.')
     return cm.finish(ctx, 'proof', '', ASSUME)
 
